@@ -47,8 +47,13 @@ class StlPastifier(LtlPastifier, StlAstVisitor):
 
     def pastify(self, ast):
         self.ast = ast
+        # the bounds of the specification as they were written (in the default unit): pastification keeps
+        # only sums and differences of them, so a monitor that requires them to be multiples of its
+        # sampling period checks these
+        self.intervals = []
         for spec in ast.specs:
             self.to_default_unit(spec)
+        ast.pastified_intervals = getattr(ast, 'pastified_intervals', []) + self.intervals
         # next / s_next look one sampling period ahead
         self.sample = Fraction(str(ast.sampling_period)) * ast.U[ast.sampling_period_unit] / ast.U[ast.unit]
         h = StlHorizon(self.sample)
@@ -90,6 +95,7 @@ class StlPastifier(LtlPastifier, StlAstVisitor):
             node.end = node.end * Fraction(self.ast.U[e_unit], self.ast.U[self.ast.unit])
             node.begin_unit = ''
             node.end_unit = ''
+            self.intervals.append(Interval(node.begin, node.end))
 
     def visit(self, node, *args, **kwargs):
         out = StlAstVisitor.visit(self, node, *args, **kwargs)
